@@ -180,6 +180,15 @@ class C09(vlib.Check):
                         yield 'replace_ss %s %s %s %s' % (hx(subj), hx(sep), hx(b'#'), cs)
                         if cstr_ok(sep) and cstr_ok(subj) and all(c < 0x80 for c in subj):
                             yield 'split_z %s %s %d %s' % (hx(subj), hx(sep), 2, cs)
+        # ---- long subjects: an occurrence straddling every 1 KiB boundary counted from either end of the subject and
+        #      from the end of the previous occurrence (split / replace restart their search there)
+        for subj, sep, o in block_boundary_subjects(rng, thorough):
+            for cs in ('cs', 'ci'):
+                sj = subj if cs == 'cs' else subj.swapcase()
+                for mx in (1, SIZE_MAX):
+                    yield 'split_s %s %s %d %s' % (hx(sj), hx(sep), mx, cs)
+                yield 'split_z %s %s %d %s' % (hx(sj), hx(sep), SIZE_MAX, cs)
+                yield 'replace_ss %s %s %s %s' % (hx(sj), hx(sep), hx(b'<->'), cs)
         # ---- seeded
         for _ in range(1200 if not thorough else 25000):
             n = rng.choice([6, 7, 9, 12, 15, 16, 17, 18, 31, 33, 40, 100, 400]) if rng.random() < 0.4 else rng.randrange(4, 12)
